@@ -170,6 +170,10 @@ class Workload:
     def history_task(self, i: int, tier: str) -> dict:
         rng = rng_for(SEED, PROP, "hist", i)
         n_ops = rng.randrange(5, 41)
+        long_history = rng.random() < 0.03
+        if long_history:
+            # "influenced by the 1,000 parses before it": bounded caches only misbehave once they overflow
+            n_ops = rng.randrange(300, 1500)
         script: list[dict] = []
         while len(script) < n_ops:
             r = rng.random()
@@ -181,6 +185,8 @@ class Workload:
                     script.append({"op": "parse_string", "text": a, "mode": "exec"})
             elif r < 0.35 and script:
                 script.append({k: v for k, v in rng.choice(script).items()})
+            elif long_history:
+                script.append(dict(rng.choice(self.small)))
             else:
                 script.append(self.pick(rng, small_bias=0.55))
         n_faults = rng.choice([0, 1, 1, 2, 3, 4])
